@@ -29,6 +29,7 @@ func runC06(p *load.Program, r *oblig.Report) {
 	c06CorrelationID(p, r)
 	c06RoundTrip(p, r)
 	c06Transport(p, r)
+	c06FetchWatermark(p, r)
 	// the read lock may only be released when the stream is at a frame boundary (or the connection is closed)
 	newC11(p, r).batchCloseDrains("C06.R2 read lock released only at a frame boundary")
 	// a Conn whose exchange was abandoned mid-response (any error that is not a broker error code) is closed, so the
@@ -740,4 +741,38 @@ func isErrNoRecord(p *load.Program, v ssa.Value) bool {
 	}
 	k, ok := an.Unwrap(v).(*ssa.Const)
 	return ok && k.Value != nil && k.Value.ExactString() == c.Val().ExactString()
+}
+
+// c06FetchWatermark: ReadBatchWith treats "high watermark == fetch offset" as "nothing to read" and then ignores the
+// record set of the response. That is only sound for the partition's high watermark itself (a broker never returns
+// records at or above it): the header readers return exactly that field.
+func c06FetchWatermark(p *load.Program, r *oblig.Report) {
+	const rule = "C06.R2 read lock released only at a frame boundary"
+	for _, name := range []string{"readFetchResponseHeaderV2", "readFetchResponseHeaderV5", "readFetchResponseHeaderV10"} {
+		fn := p.Func("", name)
+		if fn == nil {
+			r.Lost(rule, "kafka."+name)
+			continue
+		}
+		ok := false
+		var shapes []string
+		an.EachInstr(fn, func(ins ssa.Instruction) {
+			ret, isR := ins.(*ssa.Return)
+			if !isR || ret.Parent() != fn || len(ret.Results) != 4 {
+				return
+			}
+			s := clean(an.Shape(an.RetVal(ret, 1)))
+			if k, isK := an.ConstInt(an.RetVal(ret, 1)); isK && k == 0 {
+				return // an error exit taken before the partition header was read
+			}
+			shapes = append(shapes, s)
+		})
+		ok = len(shapes) > 0
+		for _, s := range shapes {
+			if !strings.HasSuffix(s, ".HighwaterMarkOffset") || strings.Contains(s, "φ") {
+				ok = false
+			}
+		}
+		r.Check(ok, rule, "kafka."+name+" reports the partition's high watermark unchanged", p.Pos(fn.Pos()), "watermark = p.HighwaterMarkOffset", strings.Join(shapes, " ;; "))
+	}
 }
